@@ -520,6 +520,94 @@ def k_rules(F, ctx):
     ctx.run("C05-K8", "every RouteContext::new/new_with_state site passes goal.accept_route_state (side condition of the actor-only exemption)", k8, floor=3)
 
 
+SU = "vrp_core::construction::enablers::schedule_update::"
+TCD = "vrp_core::models::problem::costs::TransportCost::"
+
+
+def _is_call(e, suffix):
+    return e[0][0] == "call" and e[0][1].endswith(suffix)
+
+
+def _mentions(e, pred, depth=0):
+    """does the expression tree contain a node / path element satisfying pred?"""
+    root, path = e
+    if pred(root, path):
+        return True
+    if depth > 12:
+        return False
+    subs = []
+    if root[0] == "call":
+        subs = root[2]
+    elif root[0] == "bin":
+        subs = root[2:4]
+    elif root[0] in ("un", "cast"):
+        subs = [root[2]]
+    elif root[0] == "agg":
+        subs = root[2]
+    elif root[0] == "discr":
+        subs = [root[1]]
+    return any(_mentions(x, pred, depth + 1) for x in subs)
+
+
+def r1_schedule_recurrence(F, r):
+    """forward schedule pass: arrival_i = departure_{i-1} + duration(loc_{i-1} -> loc_i, Departure(departure_{i-1})); departure_i = estimate_departure(act_i, arrival_i);
+    the stored Schedule is (arrival_i, departure_i) and (loc_i, departure_i) is carried to the next activity. Decided on canonical expressions (temporaries, renames
+    and tuple packing are transparent)."""
+    root = F.find1("schedule_update::update_schedules")
+    cls = [g for g in F.family(root) if any(t["callee"] == TCD + "duration" for _, t in mir.calls(F.fns[g]))]
+    if not cls:
+        raise AnchorError("update_schedules: the travel duration is no longer queried")
+    g = cls[0]
+    fn = F.fns[g]
+    if len(cls) != 1 or fn["kind"] != "Closure" or fn["argc"] < 3 or not fn["locals"][2].startswith("("):
+        r.ok("update_schedules: form", "not decided: the forward pass is not written as a fold over a (location, departure) pair, so its recurrence is not recognisable as canonical expressions")
+        return
+    carry = ("arg", 2)
+    dur = [t for _, t in mir.calls(fn) if t["callee"] == TCD + "duration"]
+    dep = [t for _, t in mir.calls(fn) if t["callee"].endswith("ActivityCost::estimate_departure")]
+    new = [t for _, t in mir.calls(fn) if t["callee"].endswith("Schedule::new")]
+    if len(dur) != 1 or len(dep) != 1 or len(new) != 1:
+        raise AnchorError(f"update_schedules closure: {len(dur)} duration, {len(dep)} estimate_departure, {len(new)} Schedule::new calls")
+    dur, dep, new = dur[0], dep[0], new[0]
+    e_from, e_to, e_time = (mir.expr(fn, a) for a in dur["args"][2:5])
+    loc_prev, dep_prev = (carry, (".0",)), (carry, (".1",))
+    act = lambda rt, pth: rt[0] == "call" and rt[1].endswith("Tour::get")
+
+    def chk(inst, ok, good, bad, ln):
+        if ok:
+            r.ok("update_schedules: " + inst, good)
+        else:
+            r.fail("update_schedules: " + inst, bad, F.loc(g, ln))
+    chk("leg origin", e_from == loc_prev, "duration is queried from the previous activity's location (carried)", "the travel duration is not queried FROM the location carried from the previous activity", dur["ln"])
+    chk("leg destination", _mentions(e_to, act) and e_to[1][-2:] == (".place", ".location"), "... to the current activity's location",
+        "the travel duration is not queried TO the current activity's place.location", dur["ln"])
+    chk("leg departure", e_time[0][0] == "agg" and e_time[0][1].endswith("TravelTime#Departure") and e_time[0][2] and e_time[0][2][0] == dep_prev,
+        "... at the previous activity's departure (carried)", "the travel duration is not queried at TravelTime::Departure(previous departure)", dur["ln"])
+    e_arr = mir.expr(fn, dep["args"][-1])
+    is_arr = e_arr[0][0] == "bin" and e_arr[0][1] == "Add" and {0, 1} == {i for i, x in enumerate(e_arr[0][2:4]) if x == dep_prev or _is_call(x, "TransportCost::duration")} \
+        and any(x == dep_prev for x in e_arr[0][2:4])
+    chk("arrival", is_arr, "arrival = previous departure + travel duration", "the arrival handed to estimate_departure is not `previous departure + travel duration`", dep["ln"])
+    chk("departure subject", _mentions(mir.expr(fn, dep["args"][-2]), act), "departure estimated for the current activity", "estimate_departure is not asked about the current activity", dep["ln"])
+    n0, n1 = mir.expr(fn, new["args"][0]), mir.expr(fn, new["args"][1])
+    chk("stored schedule", n0 == e_arr and _is_call(n1, "ActivityCost::estimate_departure"), "Schedule::new(arrival, departure)",
+        "the stored schedule is not (arrival, departure) of this activity (swapped or taken from another value)", new["ln"])
+    ret = mir.expr(fn, {"l": 0, "p": []})
+    ok = ret[0][0] == "agg" and len(ret[0][2]) == 2 and ret[0][2][0] == e_to and _is_call(ret[0][2][1], "ActivityCost::estimate_departure")
+    chk("carry", ok, "(current location, current departure) is carried to the next activity", "the pair carried to the next activity is not (current location, current DEPARTURE): "
+        "the next leg starts at the wrong place or time (e.g. at the arrival, ignoring service and waiting)", fn["bbs"][mir.ret_blocks(fn)[0]]["t"].get("ln") if mir.ret_blocks(fn) else None)
+    # total duration / distance
+    us = F.find1("schedule_update::update_statistics")
+    ufn = F.fns[us]
+    subs = [st for _, _, st in mir.stmts(ufn) if st["r"]["k"] == "bin" and st["r"]["op"] == "Sub"]
+    good = False
+    for st in subs:
+        a, b = mir.expr(ufn, st["r"]["o"][0]), mir.expr(ufn, st["r"]["o"][1])
+        if a[1][-2:] == (".schedule", ".departure") and b[1][-2:] == (".schedule", ".departure") and _mentions(a, lambda rt, pth: rt[0] == "call" and rt[1].endswith("Tour::end")) \
+                and _mentions(b, lambda rt, pth: rt[0] == "call" and rt[1].endswith("Tour::start")):
+            good = True
+    chk("total duration", good, "end.departure - start.departure", "the tour's total duration is not `end.schedule.departure - start.schedule.departure`", ufn["bbs"][0]["s"][0].get("ln") if ufn["bbs"][0]["s"] else None)
+
+
 HANDOVER = list(typestate.HANDOVER_TRAIT_METHODS) + ["vrp_core::solver::search::recreate::Recreate::run"]
 T1_EXCEPTIONS = {
     "<vrp_core::solver::processing::vicinity_clustering::VicinityClustering as rosomaxa::evolution::HeuristicSolutionProcessing>::post_process":
@@ -597,6 +685,7 @@ def run(ctx):
         k_rules(F, ctx)
     except AnchorError as e:
         ctx.rule("C05-K", "slot refresh rules").broken(str(e))
+    ctx.run("C05-R1", "schedule recurrence: arrival/departure/carry of the forward pass and the total duration have their defining form (canonical expressions)", r1_schedule_recurrence, floor=8)
     ctx.run("C05-T1", "typestate: every hand-over function returns only solutions whose routes were accepted after the last mutation", t1_handover, floor=25)
     ctx.run("C05-I1", "tour insertion in evaluator/insertion code is followed by goal.accept_* on every path", i1_insert_then_accept, floor=2)
     ctx.extra["slots"] = {"route": len({o.key for o in kv.ops(F) if o.store == "route"}),
